@@ -49,7 +49,7 @@ def scene(rng, kind):
     desc = {"kind": kind}
     bodies = []
     gravity = kind != "free_collision"
-    nb = {"ball_plane": 1, "balls_plane": rng.choice([2, 3]), "free_collision": 2, "alternate": 2}[kind]
+    nb = {"ball_plane": 1, "balls_plane": rng.choice([2, 3]), "free_collision": 2, "alternate": 2, "mixed_mu": 3}[kind]
     radii = []
     frictionless = kind == "free_collision"
     e_N = rng.choice([0.0, 0.3, 0.7, 1.0]) if not frictionless else rng.choice([0.0, 0.5, 1.0])
@@ -58,7 +58,13 @@ def scene(rng, kind):
         # two bouncing balls far apart whose impacts alternate: the set of closed contacts changes to a
         # different set of the same size while nothing is closed in between
         e_N, mu = 0.8, rng.choice([0.3, 0.6])
-    desc.update(e_N=e_N, mu=mu)
+    # mixed_mu: a frictionless contact is registered BEFORE frictional ones and all are closed together (persistent sliding)
+    mus = [mu] * nb
+    if kind == "mixed_mu":
+        e_N = 0.0
+        mus = [0.0, rng.choice([0.3, 0.5]), rng.choice([0.2, 0.7])]
+        mu = max(mus)
+    desc.update(e_N=e_N, mu=mu, mus=mus)
     for i in range(nb):
         r = rng.choice([0.08, 0.1, 0.15])
         radii.append(r)
@@ -68,6 +74,9 @@ def scene(rng, kind):
         elif kind == "alternate":
             pos = np.array([1.5 * i, 0.0, r + (0.02 if i == 0 else 0.09)])
             vel = np.array([rng.uniform(0.5, 1.0) * (1 - 2 * i), rng.uniform(-0.5, 0.5), -0.2])
+        elif kind == "mixed_mu":
+            pos = np.array([0.6 * i, 0.0, r])
+            vel = np.array([rng.uniform(0.5, 1.5), rng.uniform(-0.5, 0.5), 0.0])
         else:
             pos = np.array([0.35 * i + rng.uniform(-0.02, 0.02), rng.uniform(-0.02, 0.02), r + rng.choice([0.0, 0.003, 0.02, 0.08])])
             vel = np.array([rng.uniform(-1, 1), rng.uniform(-0.5, 0.5), rng.choice([0.0, -0.3, -1.0])])
@@ -77,15 +86,15 @@ def scene(rng, kind):
             om = np.array([rng.uniform(-3, 3) for _ in range(3)]) if not frictionless else np.zeros(3)
             b = RigidBody(1.0 + i, 0.4 * (1.0 + i) * r * r * np.eye(3), q0=np.concatenate([pos, [1.0, 0, 0, 0]]), u0=np.concatenate([vel, om]), name=f"b{i}")
         else:
-            b = PointMass(1.0 + i, q0=pos, u0=vel, name=f"b{i}")
+            b = PointMass((5.0 - 2 * i) if kind == "mixed_mu" else 1.0 + i, q0=pos, u0=vel, name=f"b{i}")
         bodies.append(b)
     system.add(*bodies)
     contacts = []
     if kind != "free_collision":
         for i, b in enumerate(bodies):
-            c = Sphere2Plane(system.origin, b, mu=mu, r=radii[i], e_N=e_N, e_F=0.0, name=f"p{i}")
+            c = Sphere2Plane(system.origin, b, mu=mus[i], r=radii[i], e_N=e_N, e_F=0.0, name=f"p{i}")
             contacts.append(c)
-    for i in range(nb):
+    for i in range(nb if kind != "mixed_mu" else 0):
         for j in range(i + 1, nb):
             c = Sphere2Sphere(bodies[i], bodies[j], radii[i], radii[j], mu=mu, e_N=e_N, e_F=0.0, name=f"s{i}{j}")
             contacts.append(c)
@@ -138,9 +147,16 @@ def friction_classes(PF, PN, mu, xiF):
     return fric, slip, opposes, border
 
 
-def records_for(system, sol, solver, accept_events, dt, energy_applies, tag):
-    """one record per (step, normal contact)"""
+def records_for(system, sol, solver, accept_events, dt, energy_applies, tag, bases0=None):
+    """one record per (step, normal contact).  bases0: reference contact bases of the sphere-sphere contacts as assembled; the solvers
+    transport them in step_callback after every step, and the stored friction percussions of step k refer to the basis that was in
+    effect during step k, so the harness replays the same transport while it walks through the stored steps."""
     recs = []
+    s2s = [c for c in system.contributions if hasattr(c, "reference_contact_basis")]
+    for c in s2s:
+        if bases0 is not None and c.name in bases0:
+            c.reference_contact_basis = bases0[c.name].copy()
+            c.t1t2_cache.clear(); c.t1t2_q1_q2_cache.clear()
     t, q, u = sol.t, sol.q, sol.u
     PN, PF = sol.P_N, sol.P_F
     contacts = system.get_contribution_list("g_N")
@@ -217,6 +233,8 @@ def records_for(system, sol, solver, accept_events, dt, energy_applies, tag):
                     border = True
                 rec["borderline"] = bool(border)
                 recs.append(rec)
+        for c in s2s:
+            c.step_callback(t[k], q[k][c.qDOF].copy(), u[k][c.uDOF].copy())
     return recs
 
 
@@ -237,14 +255,14 @@ def run(ctx):
     if r.violated:
         ctx.violation("spec:lemma", "TLC: the prox fixed point is not equivalent to the complementarity statement", {"stdout": r.stdout[-2000:]})
     # part 2: scenes
-    nscenes = 10 if not ctx.thorough else 80
+    nscenes = 12 if not ctx.thorough else 84
     dts = [1e-3, 3e-3, 1e-2, 3e-2]
     allrecs = []
     meta = {}
     nruns = nfail = 0
     samples = []
     for si in range(nscenes):
-        kind = ["ball_plane", "balls_plane", "free_collision", "alternate", "balls_plane"][si % 5]
+        kind = ["ball_plane", "balls_plane", "free_collision", "alternate", "balls_plane", "mixed_mu"][si % 6]
         state = rng.getstate()
         dt = dts[si % len(dts)]
         nsteps = 50 if kind != "free_collision" else int(min(200, max(30, 0.5 / dt)))
@@ -253,6 +271,7 @@ def run(ctx):
         for solver in SOLVERS:
             rng.setstate(state)
             system, desc, energy_applies = scene(rng, kind)
+            bases0 = {c.name: np.array(c.reference_contact_basis, dtype=float).copy() for c in system.contributions if hasattr(c, "reference_contact_basis")}
             if solver == "DualStormerVerlet" and energy_applies is False and desc["mu"] > 0 and any(b == "RigidBody" for b in desc["bodies"]):
                 pass
             mk = (lambda S=cls[solver], sysm=system: S(sysm, nsteps * dt, dt, options=_opts()))
@@ -266,7 +285,7 @@ def run(ctx):
                 continue
             acc = [e for e in rr.raw if e["e"] == "accept"]
             try:
-                recs = records_for(system, rr.sol, solver, acc, dt, energy_applies and desc["mu"] == 0.0 and desc["e_N"] <= 1.0, tag=len(allrecs) + 1)
+                recs = records_for(system, rr.sol, solver, acc, dt, energy_applies and desc["mu"] == 0.0 and desc["e_N"] <= 1.0, tag=len(allrecs) + 1, bases0=bases0)
             except Exception as ex:
                 raise tlc.MachineryError(f"cannot evaluate records for {solver} scene {si}: {type(ex).__name__}: {ex}")
             # ids must be consecutive over the whole batch
